@@ -263,6 +263,35 @@ func c15Check(env *core.Env, cc core.Case) core.Verdict {
 	if c.DirAt != "" {
 		dir = filepath.Join(root, c.DirAt)
 	}
+	if strings.HasPrefix(c.DirAt, "regex-assembly-") || strings.HasPrefix(c.DirAt, "regex-assembly.") {
+		// -d at a directory inside the root whose name merely starts like the assembly directory; it holds files that
+		// every command would like to rewrite
+		near := strings.SplitN(c.DirAt, "/", 2)[0]
+		if err := (sut.Tree{near + "/" + t0.Key + ".ra": "      kept from an older release\n   not\tformatted\n", near + "/include/inc1.ra": "     old include\n", near + "/910100.ra": "  old\n"}).Write(root); err != nil {
+			return core.Incon("cannot write decoy: %v", err)
+		}
+	}
+	if (c.Cmd == "format-all" || c.Cmd == "update-all") && (len(targets)+len(c.DirAt))%2 == 1 {
+		// the assembly directory is a link with a relative target, and the command is started in a directory from which
+		// the same relative path leads to another assembly directory
+		if err := os.Rename(filepath.Join(root, "regex-assembly"), filepath.Join(root, "assembly-kept-elsewhere")); err != nil {
+			return core.Incon("cannot move the assembly directory: %v", err)
+		}
+		if err := os.Symlink("assembly-kept-elsewhere", filepath.Join(root, "regex-assembly")); err != nil {
+			return core.Incon("cannot link the assembly directory: %v", err)
+		}
+		cwd = filepath.Join(sandbox, "other-checkout")
+		if err := (sut.Tree{"../other-checkout/assembly-kept-elsewhere/" + t0.Key + ".ra": "      of the other checkout\n   not\tformatted\n", "../other-checkout/assembly-kept-elsewhere/include/inc1.ra": "     other include\n", "../other-checkout/rules/.keep": ""}).Write(root); err != nil {
+			return core.Incon("cannot write decoy: %v", err)
+		}
+		inner := allowed
+		allowed = func(rel string) bool {
+			if strings.HasPrefix(rel, "assembly-kept-elsewhere/") {
+				rel = "regex-assembly/" + strings.TrimPrefix(rel, "assembly-kept-elsewhere/")
+			}
+			return inner(rel)
+		}
+	}
 	_ = (sut.Tree{"../gh-summary.md": "# summary\n"}).Write(root)
 	before := sut.Snap(sandbox)
 	var plainBefore sut.Snapshot
@@ -357,12 +386,12 @@ func init() {
 	register(&core.Property{
 		ID:    "C15",
 		Level: "exploration",
-		Rule: "generated CRS trees (1..3 rules files, assembly files with includes/definitions/stored names, test files, setup example) with ~25 decoys (near-miss extensions and names such as 932100.ra.bak, 9321000.yaml, 920110 without extension, *.conf~, notes.example.txt, README files containing marker text, a sibling directory outside the root with rules/assembly/test files, and the same in the directory above the root, so that the root is nested in something that looks like another root; a third of the runs use a root directory named crs[12] next to directories crs1 and crs2 that hold files every command would rewrite, a sixth a root named crs\\w next to a complete copy of the tree in crsw) x 38 inspecting command lines (generate file/stdin/missing, compare single/--all/github, format --check single/--all/github, renumber-tests --check single/--all/github, version, completion for 4 shells, help, failing invocations, --check and single-target runs on missing targets and on decoys that only resemble a target, --check on a file that triggers the upper-case lint, update-copyright and renumber-tests with -d at a directory that lies in no root) and 13 rewriting ones (format single/include/--all, format of an include file and of a rule file from a working directory that holds a file of the same name, update single/--all, the same with a backup copy of the rules file that matches the same glob and sorts in front of it, renumber-tests single/--all, update-copyright) x -d at the root or 1..2 levels below. Two thirds of the runs get the environment of a GitHub workflow (GITHUB_ACTIONS, GITHUB_STEP_SUMMARY / GITHUB_OUTPUT / GITHUB_ENV naming files inside the sandbox), half of those a temporary directory on another file system. Every run is traced with strace -f (file-related and attribute system calls). " +
+		Rule: "generated CRS trees (1..3 rules files, assembly files with includes/definitions/stored names, test files, setup example) with ~25 decoys (near-miss extensions and names such as 932100.ra.bak, 9321000.yaml, 920110 without extension, *.conf~, notes.example.txt, README files containing marker text, a sibling directory outside the root with rules/assembly/test files, and the same in the directory above the root, so that the root is nested in something that looks like another root; a third of the runs use a root directory named crs[12] next to directories crs1 and crs2 that hold files every command would rewrite, a sixth a root named crs\\w next to a complete copy of the tree in crsw) x 38 inspecting command lines (generate file/stdin/missing, compare single/--all/github, format --check single/--all/github, renumber-tests --check single/--all/github, version, completion for 4 shells, help, failing invocations, --check and single-target runs on missing targets and on decoys that only resemble a target, --check on a file that triggers the upper-case lint, update-copyright and renumber-tests with -d at a directory that lies in no root) and 13 rewriting ones (format single/include/--all, format of an include file and of a rule file from a working directory that holds a file of the same name, update single/--all, the same with a backup copy of the rules file that matches the same glob and sorts in front of it, renumber-tests single/--all, update-copyright) x -d at the root, 1..2 levels below, or at a directory inside the root whose name starts like the assembly directory (regex-assembly-old, regex-assembly.bak) and holds assembly files; for format --all and update --all half of the trees keep the assembly directory behind a relative link while the command is started in a directory from which that relative path leads to the assembly directory of another checkout. Two thirds of the runs get the environment of a GitHub workflow (GITHUB_ACTIONS, GITHUB_STEP_SUMMARY / GITHUB_OUTPUT / GITHUB_ENV naming files inside the sandbox), half of those a temporary directory on another file system. Every run is traced with strace -f (file-related and attribute system calls). " +
 			"Oracle: inspecting commands perform no successful write-class system call (open for writing/creating, unlink, rename, mkdir, chmod, truncate, link ...; /dev/null excepted) and leave the sandbox snapshot (root plus outside sibling) identical; rewriting commands change only paths allowed by a path model written from the statement, perform no write-class call outside the root or on a pre-existing non-target. Non-trivial = every traced run; distinct by (tree, command, -d).",
 		Cases: func(env *core.Env, rng *rand.Rand) []core.Case {
 			trees := env.N(10, 80)
 			var cs []core.Case
-			dirs := []string{"", "", "rules", "regex-assembly/include", "tests/regression"}
+			dirs := []string{"", "", "rules", "regex-assembly/include", "tests/regression", "", "rules", "regex-assembly/include", "regex-assembly-old", "regex-assembly.bak/include"}
 			for i := 0; i < trees; i++ {
 				p := projGen(rng)
 				p.addDecoys(rng)
